@@ -121,6 +121,9 @@ const TARGETS: &[Target] = &[
     Target { name: "cut_lines", file: "src/cut_lines.rs", impl_trait: None, impl_self: None, func: "cut_lines",
              calls: &[("cut_str", "gen_cut_str")], deps: &["cut_str"],
              imports: "Model.Scan Model.Regex Model.Opt Model.Utf8 Model.CutStr Model.CutLines Tie.RsOpt Tie.RsStr Tie.RsList Tie.RsRegex Tie.RsCut Tie.RsLines", ret_muts: false, fuel: "" },
+    Target { name: "read_and_cut_bytes", file: "src/cut_bytes.rs", impl_trait: None, impl_self: None, func: "read_and_cut_bytes",
+             calls: &[("cut_bytes", "gen_cut_bytes")], deps: &["cut_bytes"],
+             imports: "Model.Scan Model.Regex Model.Opt Tie.RsOpt Tie.RsStr Tie.RsList", ret_muts: false, fuel: "" },
     Target { name: "fast_try_from", file: "src/fast_lane.rs", impl_trait: Some("TryFrom"), impl_self: Some("FastOpt"),
              func: "try_from", calls: &[], deps: &[], imports: "Model.Scan Model.Regex Model.Opt Tie.RsOpt", ret_muts: false, fuel: "" },
     Target { name: "stream_try_from", file: "src/stream.rs", impl_trait: Some("TryFrom"), impl_self: Some("StreamOpt"),
@@ -579,6 +582,7 @@ impl Cx {
                 if self.calls.contains_key(&f) { return Ok(None); }
                 if f == "Err" { return Ok(Some("None".to_string())); }
                 if f == "Vec::with_capacity" { return Ok(Some("[]".to_string())); }
+                if f == "read_bytes_to_end" { return Ok(None); }
                 let mut args = vec![];
                 for a in &c.args { match self.pure(a)? { Some(x) => args.push(x), None => return Ok(None) } }
                 if f == "Err" { "None".to_string() }
@@ -1123,6 +1127,20 @@ impl Cx {
                         return Ok(acc);
                     }
                 }
+                if f == "read_bytes_to_end" && c.args.len() == 2 {
+                    // read_utils::read_bytes_to_end(reader, &mut buf): buf becomes everything that is left of the input;
+                    // None when that is nothing, Some(Ok(..)) otherwise (reads do not fail here: C14's business)
+                    if let (Expr::Path(rp), Expr::Reference(ar)) = (&c.args[0], &c.args[1]) {
+                        if let Expr::Path(bp) = &*ar.expr {
+                            let (rn, bn) = (path_str(&rp.path), path_str(&bp.path));
+                            if self.readers.contains(&rn) && self.muts.contains(&bn) {
+                                let cn = self.coqname(&bn);
+                                return Ok(format!("(let {} := {} in ({} (match {} with [] => None | _ => Some (Some tt) end)))", cn, ident(&rn), k, cn));
+                            }
+                        }
+                    }
+                    return Err("read_bytes_to_end on something other than the reader and a local buffer".into());
+                }
                 if let (Some(g), Some(mi)) = (self.calls.get(&f).cloned(), mut_vec_arg(&f)) {
                     // f(.., buf, ..) with buf: &mut Vec: the callee returns (value, final buf)
                     let mname = match c.args.get(mi) { Some(Expr::Path(p)) if self.muts.contains(&path_str(&p.path)) => self.coqname(&path_str(&p.path)), _ => return Err(format!("`{}` called with something other than a scratch vector of this function", f)) };
@@ -1332,7 +1350,15 @@ impl Cx {
                 self.muts.truncate(mm0);
                 // the initialiser sees the environment from before the binding (shadowing)
                 let bound: Vec<(String, Ty)> = self.env.drain(mark..).collect();
-                let r = self.tr(&init.expr, &format!("(fun {}{} => {})", if p.starts_with('(') { "'" } else { "" }, p, rest_s));
+                // an empty vector needs its element type said (`let v: Vec<T> = Vec::new()`)
+                let annotated = match (&l.pat, &*init.expr) {
+                    (Pat::Type(pt), Expr::Call(c)) if matches!(&*c.func, Expr::Path(fp) if path_str(&fp.path) == "Vec::with_capacity" || path_str(&fp.path) == "Vec::new") => {
+                        let (ct, _) = ty_of_type(&pt.ty);
+                        if ct.contains("UNKNOWN") || p.starts_with('(') { None } else { Some(format!("({} : {})", p, ct)) }
+                    }
+                    _ => None };
+                let binder = annotated.unwrap_or_else(|| format!("{}{}", if p.starts_with('(') { "'" } else { "" }, p));
+                let r = self.tr(&init.expr, &format!("(fun {} => {})", binder, rest_s));
                 drop(bound);
                 r
             }
